@@ -19,8 +19,55 @@ is re-derived from the real parser on the substituted canonical text, never pred
 import hashlib
 import itertools
 
+import json
+import os
+import select
+import time
+
 from . import gast, gen
+from . import pool as _pool
 from .core import Machinery
+
+
+def _fast_call(self, payload, timeout):
+    """Same protocol and failure attribution as pool.Worker.call, but reads with a 64 KiB buffer and joins the chunks once.
+    (`os.read(fd, 1 << 20)` allocates and shrinks a 1 MiB bytes object per read; with ~10^6 small replies that is about half
+    of the Python-side time of a layout exploration.) Process-local: only checks that import this module get it.
+    Set GV_NO_FASTREAD=1 to use the stock implementation."""
+    try:
+        self.p.stdin.write((json.dumps(payload) + "\n").encode())
+        self.p.stdin.flush()
+    except (BrokenPipeError, OSError):
+        rc = self.p.wait()
+        self.start()
+        return None, f"died rc={rc}"
+    fd = self.p.stdout.fileno()
+    deadline = time.time() + timeout
+    chunks = []
+    while True:
+        left = deadline - time.time()
+        if left <= 0:
+            self.start()
+            return None, "timeout"
+        r, _, _ = select.select([fd], [], [], left)
+        if not r:
+            continue
+        chunk = os.read(fd, 65536)
+        if not chunk:
+            rc = self.p.wait()
+            self.start()
+            return None, f"died rc={rc}"
+        chunks.append(chunk)
+        if chunk.endswith(b"\n"):
+            try:
+                return json.loads(b"".join(chunks).decode()), None
+            except ValueError as e:
+                self.start()
+                return None, f"bad reply: {e}"
+
+
+if not os.environ.get("GV_NO_FASTREAD"):
+    _pool.Worker.call = _fast_call
 
 GAPS = ["", " ", "   ", "\n", "\n    ", "\n\n\n", " // c\n", "\t"]
 GAP_NAME = {"": "glued", " ": "space", "   ": "3-spaces", "\n": "newline", "\n    ": "newline+indent", "\n\n\n": "blank-lines",
